@@ -36,13 +36,22 @@ STRENGTHENED = {
  "C18-m5": "round 3; missed at first; caught after the sub-check span-keyed-filters was added: an arbitrary consistent filter (a generated 64-bit mask over action kind, production / terminal and span in tokens) on grammars with nullable operators and a terminal that is both infix and prefix; GLR must return exactly the unfiltered trees without a rejected decision, an LR result must contain no decision that was rejected and never accepted",
  "C18-m6": "round 3; missed at first (an EMPTY reduction was never offered after a non-empty one in the same action list); caught by the same sub-check's call-log clause",
  "C20-m6": "round 3; a cache staleness defect (only the last-loaded file decides): C20 deletes caches between builds and cannot see it; caught by C12's histories as they stood",
+ "C05-m5": "round 3; missed at first (every table was built from a fresh Grammar object); caught after cases that build the table for the other start production (LAYOUT / main rule) first on the same Grammar object - which is what Parser() does - were added",
+ "C08-m5": "round 3; missed at first: its symptom (a child outside its parent's span by layout only) is exactly known finding D17's class; caught after D17 got a pinned corpus (d17-pinned-corpus: classics, epsilon family and rules with an EMPTY production next to another derivation of the same tokens; the recorded manifestation is required exactly)",
+ "C09-m5": "round 3; missed at first (every parser got a fresh Grammar object); caught after the Grammar object was optionally used with a decoy action set before (for non-empty action sets: a parser built without actions leaves the grammar untouched by design)",
+ "C09-m6": "round 3; missed at first (results were compared after converting lists and tuples alike); caught after the comparison kept container types ('the nested list that mirrors the derivation')",
+ "C14-m5": "round 3; missed at first (C14 only used LALR tables); caught after the table kind became a generated parser option; C05 reports it as well since C05-m5's strengthening",
+ "C14-m6": "round 3; missed at first (layout terminals never carried priorities); caught after generated priorities on the layout terminals (they never compete on the fillers used)",
+ "C17-m6": "round 3; missed by C17 at first (non-overlapping lexicon only; C01 and C02 report it); caught by C17 after the sub-check random-L1-overlapping (GLR without lexical disambiguation on overlapping terminals in prefix mode) was added",
+ "C19-m5": "round 3; missed at first (a quote of the other kind was never written escaped); caught after 'escape both quote kinds' became a generated way of writing a literal",
+ "C11-m6": "round 3; missed at first: out-of-order GLR spans with several recovering heads are exactly known finding D18's class, and random grammars hardly ever keep two heads alive at an error; caught after the deterministic d18-pinned-corpus (grammars with an R/R choice resolved one or two tokens later, sentences with one or two inserted tokens; on the unchanged tree D18 does not show on it, so all 7694 inputs are strict)",
  "C19-m2": "ported by hand onto the repaired keyword code (fix F13): KEYWORD regex run over the lower-cased text but compared with the original text",
 }
-ALSO = {"C04-m3": ["C05"], "C04-m4": ["C12"], "C16-m3": ["C12"], "C04-m5": ["C05"], "C04-m6": ["C05"], "C20-m6": ["C12"],
+ALSO = {"C17-m6": ["C01", "C02"], "C03-m5": ["C01"], "C02-m5": ["C01"], "C02-m6": ["C05"], "C01-m5": ["C02"], "C05-m6": ["C04"], "C14-m5": ["C05"], "C04-m3": ["C05"], "C04-m4": ["C12"], "C16-m3": ["C12"], "C04-m5": ["C05"], "C04-m6": ["C05"], "C20-m6": ["C12"],
         "C12-m5": ["C16"], "C16-m6": ["C12"], "C01-m1": ["C02"], "C02-m1": ["C01"], "C01-m2": ["C02", "C04", "C05"], "C02-m2": ["C01"], "C04-m1": ["C05"], "C04-m2": ["C05"], "C13-m2": ["C09"],
         "C16-m2": ["C12"]}
 NOT = {"C16-m2": ["C16"], "C04-m4": ["C04", "C05"], "C17-m3": ["C02", "C03"], "C17-m4": ["C08"],
-       "C20-m4": ["C19"], "C20-m6": ["C20"], "C16-m5": ["C17"]}
+       "C20-m4": ["C19"], "C20-m6": ["C20"], "C16-m5": ["C17"], "C01-m6": ["C05"], "C19-m6": ["C07"], "C14-m6": ["C08"], "C09-m5": ["C15"]}
 for d in sorted(glob.glob('/verif/seeded/C*-m*')):
     mid = os.path.basename(d)
     prop = mid.split('-')[0]
